@@ -36,7 +36,7 @@ MCNext ==
     \/ ("stop" \in ENV /\ \E t \in T : Stop(t))
     \/ ("complete" \in ENV /\ \E t \in T : Complete(t))
     \/ ("need" \in ENV /\ \E t \in T, v \in BOOLEAN : Need(t, v))
-    \/ \E r \in rq : Reply(r) \/ DeliverErr(r)
+    \/ \E r \in rq : Reply(r) \/ DeliverErr(r) \/ SideEnd(r)
     \/ \E k \in K : ConnStep(k)
     \/ ("expire" \in ENV /\ \E k \in K : ConnExpire(k))
     \/ ("flip" \in ENV /\ \E k \in K : Flip(k))
@@ -44,7 +44,7 @@ MCNext ==
 \* the announcer's own steps and the tracker's answers are fair; torrent events and tracker outages are not
 Fair ==
     /\ \A t \in 1 .. NT : WF_vars(Fire(t))
-    /\ \A t \in 1 .. NT : WF_vars(\E r \in rq : r.t = t /\ (Reply(r) \/ DeliverErr(r)))
+    /\ \A t \in 1 .. NT : WF_vars(\E r \in rq : r.t = t /\ (Reply(r) \/ DeliverErr(r) \/ SideEnd(r)))
     /\ \A k \in 1 .. NM : WF_vars(ConnStep(k))
 
 MCSpec == MCInit /\ [][MCNext]_vars /\ Fair
